@@ -542,3 +542,90 @@ func (d *ClaimsDesc) build() (psatoken.IClaims, error) {
 	}
 	return nil, errUnbuildable
 }
+
+// buildViaSetters materialises a description through the public constructor
+// and setters only (fails where a setter refuses). The profile claim is
+// whatever NewClaims puts there.
+func (d *ClaimsDesc) buildViaSetters() (psatoken.IClaims, error) {
+	c, err := psatoken.NewClaims(profileNameOf(d.Prof))
+	if err != nil {
+		return nil, err
+	}
+	type step func() error
+	var steps []step
+	if d.ClientID != nil {
+		steps = append(steps, func() error { return c.SetClientID(*d.ClientID) })
+	}
+	if d.Lifecycle != nil {
+		steps = append(steps, func() error { return c.SetSecurityLifeCycle(*d.Lifecycle) })
+	}
+	if d.ImplID != nil {
+		steps = append(steps, func() error { return c.SetImplID(append([]byte{}, (*d.ImplID)...)) })
+	}
+	if d.BootSeed != nil {
+		steps = append(steps, func() error { return c.SetBootSeed(append([]byte{}, (*d.BootSeed)...)) })
+	}
+	if d.CertRef != nil {
+		steps = append(steps, func() error { return c.SetCertificationReference(*d.CertRef) })
+	}
+	if len(d.Sw) > 0 {
+		steps = append(steps, func() error { return c.SetSoftwareComponents(swToIface(d.Sw)) })
+	} else if d.NoMeas != nil {
+		steps = append(steps, func() error { return c.SetSoftwareComponents(nil) })
+	}
+	if d.Nonce != nil {
+		steps = append(steps, func() error { return c.SetNonce(append([]byte{}, (*d.Nonce)...)) })
+	}
+	if d.InstID != nil {
+		steps = append(steps, func() error { return c.SetInstID(append([]byte{}, (*d.InstID)...)) })
+	}
+	if d.VSI != nil {
+		steps = append(steps, func() error { return c.SetVSI(*d.VSI) })
+	}
+	for _, s := range steps {
+		if err := s(); err != nil {
+			return nil, err
+		}
+	}
+	if d.Extra != nil {
+		switch x := c.(type) {
+		case *XP1Claims:
+			v := *d.Extra
+			x.Extra = &v
+		case *XP2Claims:
+			v := *d.Extra
+			x.Extra = &v
+		}
+	}
+	return c, nil
+}
+
+// claimsShape summarises which optional claims / sizes a description uses
+// (distinctness measure for C03).
+func (d *ClaimsDesc) claimsShape() string {
+	s := d.Prof
+	b := func(x bool) string {
+		if x {
+			return "1"
+		}
+		return "0"
+	}
+	s += b(d.ProfClaim != nil) + b(d.BootSeed != nil) + b(d.CertRef != nil) + b(d.VSI != nil) + b(d.NoMeas != nil) + b(d.Extra != nil)
+	if d.Nonce != nil {
+		s += fmt.Sprintf("n%d", len(*d.Nonce))
+	}
+	if d.BootSeed != nil {
+		s += fmt.Sprintf("s%d", len(*d.BootSeed))
+	}
+	if d.CertRef != nil {
+		s += fmt.Sprintf("c%d", len(*d.CertRef))
+	}
+	s += fmt.Sprintf("w%d", len(d.Sw))
+	for _, c := range d.Sw {
+		s += b(c.MType != nil) + b(c.Version != nil) + b(c.MDesc != nil)
+		if c.MVal != nil {
+			s += fmt.Sprint(len(*c.MVal))
+		}
+	}
+	return s
+}
